@@ -758,14 +758,15 @@ class Run(RunBase):
             t2 = self.roundtrip(t.addhdf5, T.loadhdf5)
             da = {(int(n), int(l)): c for n, l, c in t.coefflist}
             db = {(int(n), int(l)): c for n, l, c in t2.coefflist}
-            if sorted(da) != sorted(db) or any(not np.array_equal(da[k], db[k]) for k in da):
+            # (a failed call with a NaN input leaves NaN coefficients in the derived expansions: NaN must come back as NaN)
+            if sorted(da) != sorted(db) or any(not np.array_equal(da[k], db[k], equal_nan=True) for k in da):
                 self.fail("component-taylor", "coefficients differ after reload")
             u = np.array([rnd.uniform(0.2, 1) * rnd.choice((-1, 1)) for _ in range(self.dim)])
             fn = {(n, l): (lambda x, n=n: x ** float(n)) for (n, l) in t.nl()}
-            if not np.array_equal(t(u, fn), t2(u, fn)):
+            if not np.array_equal(t(u, fn), t2(u, fn), equal_nan=True):
                 self.fail("component-taylor", "values at {} differ after reload".format(u))
             pa, pb = (t * t).reduce(), (t2 * t2).reduce()
-            if any(not np.allclose(a[2], b[2], rtol=1e-13, atol=1e-15) for a, b in zip(pa.coefflist, pb.coefflist)):
+            if any(not np.allclose(a[2], b[2], rtol=1e-13, atol=1e-15, equal_nan=True) for a, b in zip(pa.coefflist, pb.coefflist)):
                 self.fail("component-taylor", "products differ after reload")
         elif what.startswith("yaml:") or what == "vtkdict":
             self.component_yaml(what, rnd)
